@@ -21,6 +21,10 @@ ASSUMPTIONS = ["np.log, np.clip, float have their usual meaning"]
 
 
 def run(ck, an, tier):
+    from sa.report import Renamed
+    from rules import C06, C13
+    C06.s7(Renamed(ck, "C06:"), an)       # the interest recorded is the interest actually accrued, once, at the request's time
+    C13.s4(Renamed(ck, "C13:"), an)       # the trades recorded are exactly the trades executed
     s1_s2(ck, an)
     s3(ck, an)
     s4(ck, an)
@@ -153,6 +157,7 @@ def s4(ck, an):
             st = enclosing_stmt(site)
             ck.check(isinstance(st, ast.Assign) and ast.unparse(st.targets[0]) == f"{reb}.{attr}" and st.value is site, "ARGFLOW", f"S4.stored-{attr}", subj, fa.loc(site),
                      f"the snapshot is stored as {reb}.{attr}", f"snapshot goes to `{ast.unparse(st)[:60]}`", construct=stmt_text(site))
+    ck.check(len(mk) == 1, "PATHCOUNT", "S4.trades-computed-once", subj, fa.f.loc, "rebalance computes the trades exactly once", f"rebalance calls make_trades {len(mk)} times", construct="rebalancing.make_trades(self)")
     for m in mk:
         st = enclosing_stmt(m)
         ck.check(isinstance(st, ast.Assign) and ast.unparse(st.targets[0]) == f"{reb}.trades" or _stored_later(fa, m, f"{reb}.trades"), "ARGFLOW", "S4.stored-trades", subj, fa.loc(m),
@@ -329,6 +334,20 @@ def s7(ck, an):
     for name, w in want.items():
         got = [ast.unparse(s.value) for s in all_stmts(fa) if isinstance(s, ast.Assign) and isinstance(s.targets[0], ast.Subscript) and ast.unparse(s.targets[0].value) == name]
         ck.check(got == [w], "DEP", f"S7.costs-{name}", fa.f.short, fa.f.loc, f"{name} reports {w}", f"{name} reports {got}", construct=f"{name}[time] = ...")
+    # optional post-processing happens only when asked for
+    for short in ("TrackRecord.net_liquidation_value", "TrackRecord.weights_actual", "TrackRecord.weights_target", "TrackRecord.transaction_costs"):
+        fa = an.fa(short)
+        for s_ in all_stmts(fa):
+            if isinstance(s_, ast.Assign) and "_nr_steps_to_burn" in ast.unparse(s_.value):
+                sg = fa.syntactic_guards(s_)
+                ck.check(any(p[0] == "truthy" and p[1] == "burn" and p[2] for p in sg), "GUARD", "S7.burn-only-when-asked", fa.f.short, fa.loc(s_), "initial entries are dropped only when burn=True", "entries are dropped when burn is False",
+                         construct=stmt_text(s_))
+            if isinstance(s_, ast.Assign) and "groupby(groups" in ast.unparse(s_.value):
+                sg = fa.syntactic_guards(s_)
+                ck.check(any(p[0] == "truthy" and p[1] == "aggregate_future_chain" and p[2] for p in sg), "GUARD", "S7.aggregate-only-when-asked", fa.f.short, fa.loc(s_), "chain contracts are aggregated only when asked", "columns are aggregated by default",
+                         construct=stmt_text(s_))
+        d = fa.f.param_default("burn")
+        ck.check(const_value(d) is False, "CONST", "S7.burn-default-off", fa.f.short, fa.f.loc, "burn defaults to False (every entry is reported)", f"burn default is {ast.unparse(d) if d else None}", construct="burn=False")
     # iteration over all entries
     for short in ("TrackRecord.net_liquidation_value", "TrackRecord.weights_actual", "TrackRecord.weights_target", "TrackRecord.transaction_costs"):
         fa = an.fa(short)
